@@ -23,6 +23,7 @@ import (
 	"log/slog"
 	"net"
 	"net/netip"
+	"slices"
 	"strconv"
 	"time"
 
@@ -265,6 +266,11 @@ func (m *roaManager) handleRTRMsg(client *roaClient, state *oc.RpkiServerState, 
 					client.pendingROAs = append(client.pendingROAs, roa)
 				}
 			} else {
+				// a withdrawal also cancels an announcement of the same
+				// record that is still waiting for End of Data
+				client.pendingROAs = slices.DeleteFunc(client.pendingROAs, func(r *table.ROA) bool {
+					return r.Equal(roa) && r.Network.String() == roa.Network.String()
+				})
 				m.table.Delete(roa)
 			}
 		case *rtr.RTREndOfData:
